@@ -94,6 +94,9 @@ WHITELIST = [
     ("compare_indexed_rows_for_journalling", ["arr", "arr", "arr", "arr", "arr", "arr", "barr"]),
     ("categorical_transform", ["arr", "int", "arr2", "arr", "arr", "arr", "arr", "arr"]),
     ("leaky_categorical_transform", ["arr", "arr", "arr", "int", "arr2", "arr", "arr", "arr", "arr", "arr"]),
+    ("fixed_string_transform", ["arr2", "arr", "arr", "int", "int", "int", "arr"]),
+    ("merge_indexed_journalled_entries", ["arr", "arr", "barr", "arr", "arr", "arr", "arr", "arr", "arr"]),
+    ("ordered_map_valid_indexed_partial", ["arr", "int", "int", "arr", "int", "int", "arr", "int", "arr", "arr"] + ["int"] * 5),
 ]
 
 LEAN_T = {"int": "Int", "bool": "Bool", "arr": "List Int", "barr": "List Bool", "opt_arr": "Option (List Int)",
@@ -532,6 +535,11 @@ class Kernel:
             if t != "int":
                 raise Unsupported(f"{f} of a {t}")
             return "int", x, b                    # ints are unbounded: the cast is the identity (fixed width is not modelled)
+        if f in ("np.int8", "numpy.int8") and len(n.args) == 1 and not n.keywords:
+            t, x, b = self.expr(n.args[0], defined)
+            if t != "int":
+                raise Unsupported(f"{f} of a {t}")
+            return "int", f"(pyInt8 {x})", b      # the one narrowing cast that is modelled: the value as a signed byte
         if f in ("min", "max") and len(n.args) == 2 and not n.keywords:
             (ta, xa, ba), (tb, xb, bb) = self.expr(n.args[0], defined), self.expr(n.args[1], defined)
             if ta != "int" or tb != "int":
